@@ -18,6 +18,14 @@ pub fn full(pat: &str) -> String {
     format!("^(?:{})$", pat)
 }
 
+/// Leftmost-first search on the reference engine of regex-automata (PikeVM); None = the pattern does not compile there.
+pub fn pikevm_find(pat: &str, hay: &str) -> Option<Option<(usize, usize)>> {
+    use regex_automata::nfa::thompson::pikevm::PikeVM;
+    let re = PikeVM::builder().syntax(syntax::Config::new().unicode(true).utf8(true)).build(pat).ok()?;
+    let mut cache = re.create_cache();
+    Some(re.find(&mut cache, hay).map(|m| (m.start(), m.end())))
+}
+
 pub fn build_dfa(pat: &str) -> Result<Dfa, String> {
     dense::Builder::new()
         .configure(
